@@ -73,7 +73,7 @@ META = {
         "all paths through that handler issue exactly one HEADING_SLUG warning (helpers that warn on all their paths are "
         "followed), no other warning, store nothing into the registry or node['slug'], and cannot raise; every normal path from the "
         "call of the slug function to the exit of compute_unique_slug crosses an edge on which isinstance(result, str) - str only - "
-        "holds (asserts do not count); the configuration field that "
+        "holds (asserts do not count), and no normal return depends on the result being truthy ('' is a legal slug); the configuration field that "
         "feeds the slug function is marked global_only and merge_file_level reaches setattr/validate_field only behind a negative "
         "global_only test (a document cannot choose the function that computes its own anchors); a configuration object that is "
         "stored on the Sphinx environment drops the slug function from its pickled state (__getstate__), so that a function "
@@ -87,7 +87,8 @@ META = {
         "package helpers and `a or b` / conditional copies; and the key under which a reader searches the table (subscript, "
         ".get, membership test; names and package helpers resolved) is not passed through a many-to-one mapping (docutils name "
         "normalisers, make_id, case folding, Unicode normalisation, re-slugging), because the writer records each slug exactly "
-        "as the - possibly custom, case-preserving - slug function returned it. "
+        "as the - possibly custom, case-preserving - slug function returned it; the same holds for the fragment the renderer of id "
+        "links stores (`id_link` + `refuri`). "
         "R6 in the function that resolves '#anchor' links from the slug table, any table consulted earlier is filled - in place or "
         "in the helper that returns it - only under docutils' explicit flag (value of nametypes.items() or nametypes[name]), and "
         "never with an entry computed from a record of the slug table (a cached slug hit): "
@@ -1569,43 +1570,74 @@ def _field_default(corpus: Corpus, fld: str):
     raise Unsupported(f"MdParserConfig has no field {fld}")
 
 
-def _rendered_text_drops_bom(cli: Module, fam: list[FunctionInfo]) -> bool:
-    """The text given to `<parser>.render(...)` has passed a call that removes a LEADING U+FEFF (data flow through local names)."""
+def _rendered_text_drops_bom(cli: Module, fam: list[FunctionInfo], corpus: Corpus | None = None) -> bool:
+    """The text given to `<parser>.render(...)` has passed a call that removes a LEADING U+FEFF (data flow through local
+    names, helper parameters back to their call sites, and helpers that return the text)."""
     BOM = "\ufeff"
+
+    def lit(e: ast.expr):
+        """String value of a literal or of a module-level constant."""
+        if isinstance(e, ast.Constant):
+            return e.value if isinstance(e.value, str) else None
+        if isinstance(e, ast.Name) and e.id in cli.const_nodes:
+            try:
+                v = cli.eval_const(e)
+            except Unsupported:
+                return None
+            return v if isinstance(v, str) else None
+        return None
+
+    def strips_bom(src: ast.AST) -> bool:
+        for c in ast.walk(src):
+            if isinstance(c, ast.Call) and isinstance(c.func, ast.Attribute) and c.args:
+                a0 = lit(c.args[0])
+                if a0 is None:
+                    continue
+                if c.func.attr == "removeprefix" and a0 == BOM:
+                    return True
+                if c.func.attr in ("lstrip", "strip") and BOM in a0:
+                    return True
+                if c.func.attr == "replace" and a0 == BOM and len(c.args) >= 2 and lit(c.args[1]) == "":
+                    return True
+            if isinstance(c, ast.IfExp) and isinstance(c.body, ast.Subscript) and isinstance(c.body.slice, ast.Slice) and any(
+                isinstance(x, ast.Call) and isinstance(x.func, ast.Attribute) and x.func.attr == "startswith" and x.args and lit(x.args[0]) == BOM for x in ast.walk(c.test)
+            ):
+                return True
+        return False
+
+    by_name = {g_.name: g_ for g_ in fam if not g_.is_lambda}
+
+    def sources(f: FunctionInfo, e: ast.expr, depth: int) -> list[ast.expr]:
+        out: list[ast.expr] = []
+        for src in _key_sources(corpus, f, e, 4):
+            out.append(src)
+            if depth <= 0:
+                continue
+            # a helper of the command that returns the text
+            for c in ast.walk(src):
+                if isinstance(c, ast.Call) and isinstance(c.func, ast.Name) and c.func.id in by_name and by_name[c.func.id] is not f:
+                    h = by_name[c.func.id]
+                    for r in walk_local(h.node):
+                        if isinstance(r, ast.Return) and r.value is not None:
+                            out.extend(sources(h, r.value, depth - 1))
+            # a parameter: what the callers in the family pass
+            if isinstance(src, ast.Name) and src.id in f.params:
+                idx = f.params.index(src.id)
+                for g_ in by_name.values():
+                    for c in walk_local(g_.node, into_lambdas=False):
+                        if isinstance(c, ast.Call) and isinstance(c.func, ast.Name) and c.func.id == f.name:
+                            a_ = arg_or_kw(c, idx, src.id)
+                            if a_ is not None:
+                                out.extend(sources(g_, a_, depth - 1))
+        return out
+
     for f in fam:
         if f.is_lambda:
             continue
         for n in walk_local(f.node, into_lambdas=False):
-            if not (isinstance(n, ast.Call) and isinstance(n.func, ast.Attribute) and n.func.attr == "render" and len(n.args) >= 1):
-                continue
-            srcs = list(_key_sources(None, f, n.args[0], 4))
-            # a parameter of a helper of the command: what its callers in the family pass
-            for src in list(srcs):
-                if isinstance(src, ast.Name) and src.id in f.params:
-                    idx = f.params.index(src.id)
-                    for g_ in fam:
-                        if g_.is_lambda:
-                            continue
-                        for c in walk_local(g_.node, into_lambdas=False):
-                            if isinstance(c, ast.Call) and isinstance(c.func, ast.Name) and c.func.id == f.name:
-                                a_ = arg_or_kw(c, idx, src.id)
-                                if a_ is not None:
-                                    srcs.extend(_key_sources(None, g_, a_, 4))
-            for src in srcs:
-                for c in ast.walk(src):
-                    if isinstance(c, ast.Call) and isinstance(c.func, ast.Attribute) and c.args and isinstance(c.args[0], ast.Constant) and isinstance(c.args[0].value, str):
-                        a0 = c.args[0].value
-                        if c.func.attr == "removeprefix" and a0 == BOM:
-                            return True
-                        if c.func.attr in ("lstrip", "strip") and BOM in a0:
-                            return True
-                        if c.func.attr == "replace" and a0 == BOM and len(c.args) >= 2 and isinstance(c.args[1], ast.Constant) and c.args[1].value == "":
-                            return True
-                    if isinstance(c, ast.IfExp) and isinstance(c.body, ast.Subscript) and isinstance(c.body.slice, ast.Slice) and any(
-                        isinstance(x, ast.Call) and isinstance(x.func, ast.Attribute) and x.func.attr == "startswith" and x.args and isinstance(x.args[0], ast.Constant) and x.args[0].value == BOM
-                        for x in ast.walk(c.test)
-                    ):
-                        return True
+            if isinstance(n, ast.Call) and isinstance(n.func, ast.Attribute) and n.func.attr == "render" and len(n.args) >= 1:
+                if any(strips_bom(src) for src in sources(f, n.args[0], 3)):
+                    return True
     return False
 
 
@@ -2368,6 +2400,29 @@ def _r4_result_is_str(corpus: Corpus, rep: Report, cus: FunctionInfo, sel: dict)
                         elif p_:
                             partial.append(t)
         site = cus.module.site(call)
+        # '' is a legal result (punctuation-only title): no normal return may depend on the result being truthy
+        ke = f"{cus.fq}|an empty result of the slug function is accepted"
+        falsy = None
+        for r in walk_local(cus.node):
+            if not isinstance(r, ast.Return):
+                continue
+            for t, pol in cfg.guards(r):
+                if pol and isinstance(t, ast.Name) and t.id == res:
+                    falsy = falsy or t
+                if isinstance(t, ast.Compare) and len(t.ops) == 1 and res in _names(t) and any(isinstance(x, ast.Constant) and x.value in ("", 0) for x in ast.walk(t)):
+                    falsy = falsy or t
+                if pol and isinstance(t, ast.Call) and dotted(t.func) in ("len", "bool") and res in _names(t):
+                    falsy = falsy or t
+        if falsy is not None:
+            rep.violation(
+                "C10.R4",
+                ke,
+                cus.module.site(falsy),
+                f"the slug is only returned when `{short(falsy, 40)}` holds: the empty string - the rule's legitimate result for a title of punctuation or emoji only - is treated as a failure of "
+                "the slug function (a [myst.heading_slug] warning, no anchor, nothing recorded), while myst-anchors prints the anchor and numbers the next such heading `-1`",
+            )
+        else:
+            rep.ok("C10.R4", ke, site)
         # every path from the call to a normal exit crosses an edge on which isinstance(res, str) holds
         if not cfg.paths_avoiding(st, EXIT, lambda n: n in ok_edges):
             rep.ok("C10.R4", k, site, f"every normal path after `{short(st, 40)}` has passed isinstance({res}, str)")
@@ -2852,7 +2907,58 @@ def r5_record_layout(corpus: Corpus, rep: Report, tier: str):
                 _check_lookup_keys(f, r, name, rep, corpus)
         if not found:
             rep.error("C10.R5", f"registry published as {kind} `{name}` ({esite}) has no reader in the package")
+    _r5_fragment_writers(corpus, rep)
     rep.expect_min("C10.R5", 2, "readers of document.myst_slugs and env.metadata[...]['myst_slugs']")
+
+
+def _lossy_call(corpus: Corpus | None, f: FunctionInfo, e: ast.expr):
+    for src in _key_sources(corpus, f, e):
+        for c in ast.walk(src):
+            if isinstance(c, ast.Call):
+                last = (dotted(c.func) or (c.func.attr if isinstance(c.func, ast.Attribute) else "")).split(".")[-1]
+                if last in _LOSSY_KEY_MAPS:
+                    return c, last
+    return None
+
+
+def _r5_fragment_writers(corpus: Corpus, rep: Report) -> None:
+    """The '#fragment' that the resolver looks up is written by the renderer of id links (`id_link` + `refuri`): it must
+    reach the resolver as written, too - a many-to-one mapping there makes case-preserving custom slugs unreachable."""
+    n_w = 0
+    for f in corpus.all_functions():
+        if f.is_lambda or not f.module.name.startswith("myst_parser.mdit_to_docutils"):
+            continue
+        marks = [
+            n
+            for n in f.local_nodes()
+            if isinstance(n, ast.Assign) and any(isinstance(t, ast.Subscript) and isinstance(t.slice, ast.Constant) and t.slice.value == "id_link" for t in n.targets)
+        ]
+        kws = [c for c in f.local_nodes() if isinstance(c, ast.Call) and kwarg(c, "id_link") is not None and kwarg(c, "refuri") is not None]
+        frags: list[ast.expr] = [kwarg(c, "refuri") for c in kws]
+        for mk in marks:
+            recv = unparse(next(t for t in mk.targets if isinstance(t, ast.Subscript)).value)
+            for n in f.local_nodes():
+                if isinstance(n, ast.Assign):
+                    for t in n.targets:
+                        if isinstance(t, ast.Subscript) and isinstance(t.slice, ast.Constant) and t.slice.value == "refuri" and unparse(t.value) == recv:
+                            frags.append(n.value)
+        for e in frags:
+            n_w += 1
+            k = f"{f.fq}|fragment of an id link is stored as written"
+            hit = _lossy_call(corpus, f, e)
+            if hit is not None:
+                c, last = hit
+                rep.violation(
+                    "C10.R5",
+                    k,
+                    f.module.site(c),
+                    f"the '#fragment' of an id link is stored as `{short(e, 60)}` ({_LOSSY_KEY_MAPS[last]}): the resolver then searches the heading-slug table, whose keys are the slugs "
+                    "exactly as the slug function returned them, under the mapped text, so an anchor of a case-preserving custom heading_slug_func ('Plain-title') is unreachable through '#Plain-title'",
+                )
+            else:
+                rep.ok("C10.R5", k, f.module.site(e), short(e, 50))
+    if not n_w:
+        raise Unsupported("no writer of id links (`id_link` + `refuri`) found in mdit_to_docutils")
 
 
 # functions/methods that map different strings to one (name normalisers, id makers, case folding): a slug that is not a
@@ -3665,9 +3771,24 @@ def mutants(corpus: Corpus):
         ic = [x for x in ast.walk(tchk.test) if isinstance(x, ast.Call) and dotted(x.func) == "isinstance"][0]
         rn = segment(src, ic.args[0])
         out.append(Mutant("c10-revert-47dc5e3-result-unchecked", "C10.R4", base.rel, splice(src, tchk.test, "False"), expect="checked to be a string"))
+        out.append(Mutant("c10-result-check-rejects-empty-slug", "C10.R4", base.rel, splice(src, ic, f"({rn} and {segment(src, ic)})"), expect="empty result"))
+        ind_t = " " * tchk.col_offset
+        out.append(Mutant("c10-empty-slug-raises", "C10.R4", base.rel, splice(src, tchk, segment(src, tchk) + f"\n{ind_t}if not {rn}:\n{ind_t}    raise ValueError('empty slug')"), expect="empty result"))
         out.append(Mutant("c10-result-check-none-only", "C10.R4", base.rel, splice(src, tchk.test, f"{rn} is None"), expect="checked to be a string"))
         out.append(Mutant("c10-result-check-admits-int", "C10.R4", base.rel, splice(src, ic.args[1], "(str, int)"), expect="checked to be a string"))
         out.append(Mutant("c10-result-check-only-asserted", "C10.R4", base.rel, splice(src, tchk, f"assert isinstance({rn}, str) or True"), expect="checked to be a string"))
+    # ---- R5: class "the renderer of id links stores a many-to-one image of the fragment"
+    for f_ in base.functions.values():
+        if f_.is_lambda:
+            continue
+        mk_ = find_node(f_, lambda n: isinstance(n, ast.Assign) and any(isinstance(t, ast.Subscript) and isinstance(t.slice, ast.Constant) and t.slice.value == "id_link" for t in n.targets))
+        if mk_ is None:
+            continue
+        ru_ = find_node(f_, lambda n: isinstance(n, ast.Assign) and any(isinstance(t, ast.Subscript) and isinstance(t.slice, ast.Constant) and t.slice.value == "refuri" for t in n.targets))
+        if ru_ is not None:
+            vseg = segment(src, ru_.value)
+            out.append(Mutant("c10-id-link-fragment-normalised", "C10.R5", base.rel, splice(src, ru_.value, f"nodes.fully_normalize_name({vseg})"), expect="stored as written"))
+            out.append(Mutant("c10-id-link-fragment-lower-cased", "C10.R5", base.rel, splice(src, ru_.value, f"{vseg}.lower()"), expect="stored as written"))
     # ---- R3(b): class "the configuration validator rejects a documented depth"
     cmn = corpus.mod("config.main")
     ci_ = cmn.classes.get("MdParserConfig")
